@@ -25,7 +25,7 @@ from sfv.canon import tok, untok
 
 TARGETS = ['SFModel.Props.C15']
 THEOREMS = [
-    'SF.C15.unity_only_for_propagating', 'SF.C15.composable_table', 'SF.C15.axis0_per_column', 'SF.C15.unity_claim',
+    'SF.C15.unity_only_for_propagating', 'SF.C15.composable_table', 'SF.C15.axis0_per_column', 'SF.C15.axis0_one_row_unity', 'SF.C15.unity_claim',
     'SF.C15.axis1_per_row', 'SF.C15.axis1_per_row_consolidated', 'SF.C15.reduce_layout_invariant',
     'SF.C15.reduce_layout_invariant_noncomposable', 'SF.C15.composable_needs_reduction_counterexample',
     'SF.C15.skipna_ignores_missing', 'SF.C15.skipna_only_present', 'SF.C15.skipna_semantics',
@@ -929,7 +929,6 @@ def split_lists(body):
     return out
 
 
-UNITY_FNS = ('sum', 'prod', 'min', 'max', 'mean', 'median')
 MISSING_TOKS = ('nan', 'N', 'nat')
 
 
@@ -971,10 +970,6 @@ def classify(f):
         return 'F33-c15-zero-rows-logical-and-arg'
     if rows == 0 and fn in FNS_ARG and exc in ('RuntimeError', 'ValueError'):
         return 'F33-c15-zero-rows-logical-and-arg'
-    # R1 the size_one_unity shortcut on one-row frames with several blocks
-    if fn in UNITY_FNS and axis == 0 and sk is False and rows == 1 and multi:
-        if exc == 'ValueError' or d.get('got_array') or kind in ('layout_err_vs_ok', 'model_ok_real_raises', 'model_value'):
-            return 'F16-c15-one-row-unity-shortcut'
     # R6 logical reductions with a 2-D datetime64 block next to other blocks: `out` is ignored
     if fn in ('all', 'any') and multi and kind in ('value', 'layout_value'):
         for lay in lays:
